@@ -13,7 +13,7 @@ RULE = (
     "workplaces of any capacity, conveyor input links, facility sets, both workplace priority rules, all task "
     "rules) and profile N (one level of nesting in assembly form: every task of a parent component FS-follows every "
     "task of its children; parents carry an unfinished task and a workplace that can always take them; no conveyor "
-    "links), plus a conveyor profile (workplaces chained by input links, each component's tasks targeted by successive workplaces) and a sibling profile (one parent, 2-4 children waiting side by side in shared workplaces before the parent collects them). Components may carry several tasks in any dependency relation. Oracle at every step, on the "
+    "links), plus a conveyor profile (workplaces chained by input links, each component's tasks targeted by successive workplaces) and a sibling profile (one parent, 2-4 children waiting side by side in shared workplaces before the parent collects them) and a parallel profile (components whose tasks, automatic ones included, are active side by side and served by different workplaces). Sizes and capacities are dyadic or decimal. Components may carry several tasks in any dependency relation. Oracle at every step, on the "
     "live snapshots and the logs: workplace contents <=> component placement (hence <= 1 workplace per component); "
     "sum of space sizes of the top-most placed components <= capacity + 1e-8; a component entering a workplace "
     "with declared inputs comes from one of them or from nowhere; <= 1 move per step (every placement assignment "
@@ -30,7 +30,7 @@ TECHNIQUE = "property-based testing (Hypothesis): generated products/workplaces,
 LEVEL_TEXT = "Generated-input search with placement invariants at every step; nested products only on the restricted profile N; not a proof."
 LEVEL_NOTE = "Trusts the step observer and a harness subclass of BaseComponent that records set_placed_workplace calls (no change to pDESy)."
 
-CFG_F = gen.Cfg(warm=4, facilities=True, max_tasks=7, max_comps=5, max_wps=4, max_time=[40], p_auto=6,
+CFG_F = gen.Cfg(warm=4, facilities=True, max_tasks=7, min_comps=1, max_comps=5, min_wps=1, max_wps=4, max_time=[40], p_auto=6,
                 work_pool=[0.0, 0.5, 1.0, 1.0, 2.0, 3.0], kinds=[0, 0, 0, 1, 2, 3])
 CFG_N = CFG_F.copy(nested="assembly", inputs=False)
 
@@ -215,11 +215,59 @@ def _siblings(draw):
     return spec
 
 
+CFG_PAR = CFG_F.copy(min_tasks=3, max_tasks=6, min_comps=1, max_comps=2, min_wps=2, max_wps=3, max_facs_per_wp=2, p_auto=3, kinds=[0, 1, 1, 2], max_deps_factor=1,
+                     inputs=False, progress=False, worker_abs=False)
+
+
+@st.composite
+def _parallel(draw, cfg):
+    """Flat products whose components carry several tasks that are active side by side (automatic ones included),
+    each served by some but not all workplaces: a READY task would like its component elsewhere while another task
+    of the same component is WORKING where it is."""
+    spec = draw(gen.model_spec(cfg))
+    n = len(spec["tasks"])
+    nc = len(spec["comps"])
+    for ti, t in enumerate(spec["tasks"]):
+        t["comp"] = draw(st.integers(0, nc - 1))
+        t["nf"] = not t["auto"]
+        t["fixw"] = None
+        t["fixf"] = None
+    for k, wp in enumerate(spec["wps"]):
+        wp["cap"] = 10.0
+        wp.pop("notask", None)
+    for ti in range(n):
+        # each task is served by one or two of the workplaces
+        ks = draw(st.lists(st.integers(0, len(spec["wps"]) - 1), min_size=1, max_size=2, unique=True))
+        for k, wp in enumerate(spec["wps"]):
+            wp["targets"] = sorted((set(wp["targets"]) - {ti}) | ({ti} if k in ks else set()))
+    have = set(f["wp"] for f in spec["facs"])
+    for k in range(len(spec["wps"])):
+        if k not in have:
+            spec["facs"].append({"wp": k, "cost": 1.0, "solo": False, "skills": {}, "abs": []})
+    for f in spec["facs"]:
+        f["skills"] = {str(i): 1.0 for i in range(n)}
+        f["solo"] = False
+        f.setdefault("abs", [])
+        f.setdefault("cost", 1.0)
+    for tm in spec["teams"]:
+        tm["targets"] = list(range(n))
+        tm.pop("notask", None)
+    if not spec["workers"]:
+        spec["workers"].append({"team": 0, "cost": 1.0, "solo": False, "skills": {}, "fsk": {}, "abs": [], "mw": None})
+    for w in spec["workers"]:
+        w["skills"] = {str(i): 1.0 for i in range(n)}
+        w["fsk"] = {str(j): 1.0 for j in range(len(spec["facs"]))}
+        w["solo"] = False
+    gen.share_skills_by_name(spec)
+    return spec
+
+
 def strategy(tier):
     if tier == "quick":
-        return st.one_of(_case(CFG_F), _case(CFG_F), _case(CFG_N), _conveyor(CFG_CONV), _siblings())
+        return st.one_of(_case(CFG_F), _case(CFG_F), _case(CFG_N), _conveyor(CFG_CONV), _siblings(), _parallel(CFG_PAR))
     big = dict(max_tasks=10, max_comps=6)
-    return st.one_of(_case(CFG_F.copy(**big)), _case(CFG_F.copy(**big)), _case(CFG_N.copy(**big)), _conveyor(CFG_CONV.copy(max_tasks=10, max_comps=4)), _siblings())
+    return st.one_of(_case(CFG_F.copy(**big)), _case(CFG_F.copy(**big)), _case(CFG_N.copy(**big)), _conveyor(CFG_CONV.copy(max_tasks=10, max_comps=4)), _siblings(),
+                     _parallel(CFG_PAR.copy(max_tasks=9, max_comps=3)))
 
 
 def budget(tier):
@@ -279,6 +327,7 @@ def check(spec):
 
     competed = False
     hop = False
+    wanted_elsewhere = False
 
     def snapshot_invariants(sn, where, strict_finished):
         # 1. two-way consistency, at most one workplace
@@ -366,6 +415,7 @@ def check(spec):
     res.cls("multi_task_component_unordered", unordered_multi_task_component(spec))
     res.cls("conveyor_links", any(w["inputs"] for w in spec["wps"]))
     res.cls("competition", competed)
+    res.cls("some_component_placed", any(x is not None for c in h.comps for x in c.placed_workplace_id_record))
     res.cls("conveyor_hop", hop)
     res.nontrivial = competed or hop
     res.stats["steps"] += len(p.cost_list)
